@@ -246,6 +246,20 @@ def run_case(case: Dict[str, Any], ctx) -> None:
                 ctx.violation(f"{key}:intermediate-module-changed-by-a-later-transform", f"module after {prefix} gives different results once {chain} was built and run",
                               source=src)
                 break
+        # ---- the transformed module with autograd off (evaluation): same forward values -------------------------------
+        if case["seed"] % 3 == 2 and "compile" not in chain:
+            try:
+                with torch.no_grad(), pinned_randint(shape_keyed_randint):
+                    out_n = result(*[t.detach().clone() for t in inputs])
+                outs_n = list(out_n) if isinstance(out_n, (tuple, list)) else [out_n]
+                ctx.count("mode:no_grad-compared")
+                for a_, b_ in zip(outs_n, runs[0]["outs"]):
+                    sc_ = max(float(b_.abs().max()), 1e-30)
+                    if tuple(a_.shape) != tuple(b_.shape) or float((a_ - b_).abs().max()) > 1e-5 * sc_:
+                        ctx.violation(f"{key}:no_grad-call-computes-something-else:{'>'.join(chain)}", f"chain {chain}, format {fmt}", source=src)
+                        break
+            except Exception as e:
+                ctx.violation(f"{key}:transformed-module-raises-under-no_grad:{'>'.join(chain)}:{exc_key(e)}", repr(e), source=src)
         # ---- repeated calls identical ------------------------------------------------------------------------
         for r in runs[1:]:
             ctx.count("repeat:calls-compared")
